@@ -1019,3 +1019,187 @@ def r8(cx):
 
 
 RS.explanation += ' The line compared with a here-document delimiter has its line continuations removed (R8).'
+
+
+# ---------------------------------------------------------------------------------------
+# added after seed C18-s9 (Parser::list skipped newlines after a `;` separator, so `cmd;` at the end of a line was no longer a
+# complete command and the NEXT line was read - and taken from a shared stdin - before `cmd` ran)
+_PL = 'yash_syntax::parser::list::'
+_PCORE = 'yash_syntax::parser::core::Parser::<'
+_OPERATOR = 'yash_syntax::parser::lex::op::Operator'
+_LIST_SEPARATORS = {'Semicolon', 'And'}
+
+
+def _parser_fn(F, module, name):
+    hits = sorted(r for r in F.by_root if r.startswith(module) and r.endswith('>::' + name))
+    return hits[0] if len(hits) == 1 else None
+
+
+def _parser_callees(F, root):
+    """{callee root: (body, term)} of the calls `root` (with its closures / coroutine) makes into yash_syntax::parser."""
+    out = {}
+    for b in F.by_root.get(root, []):
+        for _, t in b.calls():
+            for n in Q.callee_names(t):
+                # the lexer (yash_syntax::parser::lex) is below the token primitives of the parser: not part of the grammar's call graph
+                if n.startswith('yash_syntax::parser::') and not n.startswith('yash_syntax::parser::lex::'):
+                    out.setdefault(n.split('::{closure')[0], (b, t))
+    return out
+
+
+def _own_closure(F, start, cut, leaves):
+    """Functions of the parser reachable from `start` over the workspace call graph without entering the sub-production `cut`;
+    `leaves` (token primitives) are recorded but not expanded. -> {fn: chain of fns from start}"""
+    seen, todo = {start: [start]}, [start]
+    while todo:
+        f = todo.pop()
+        if f in leaves or f == cut:
+            continue
+        for c in sorted(_parser_callees(F, f)):
+            if c not in seen:
+                seen[c] = seen[f] + [c]
+                todo.append(c)
+    return seen
+
+
+def _in_own_cycle(body, block):
+    return any(block in body.reachable(s) for s in body.succ(block))
+
+
+@RS.rule('C18.R9', 'K-CALLERS+K-PASS+K-SIBLING', 'a complete command ends at the FIRST newline after it: Parser::list (the `;`/`&` sequence that command_line '
+         'parses) never consumes a newline token or here-document lines itself nor through a helper (the only way down is the sub-production '
+         'and_or_list), it treats only `;` and `&` as separators, and command_line consumes exactly one newline (one call of '
+         'newline_and_here_doc_contents, after list, on every path to Ok, not in a cycle); maybe_compound_list is the sibling that does loop '
+         'over list and newlines; here_doc_contents is reached only from newline_and_here_doc_contents')
+def r9(cx):
+    F = cx.F
+    LIST, CL, MCL, NL = (_parser_fn(F, _PL, n) for n in ('list', 'command_line', 'maybe_compound_list', 'newline_and_here_doc_contents'))
+    AND = _parser_fn(F, 'yash_syntax::parser::and_or::', 'and_or_list')
+    for nm, v in (('list', LIST), ('command_line', CL), ('maybe_compound_list', MCL), ('newline_and_here_doc_contents', NL), ('and_or_list', AND)):
+        cx.require(v is not None, 'Parser::%s not found (or not unique) in yash_syntax::parser' % nm)
+    prim = {n: _PCORE + "'a, 'b>::" + n for n in ('peek_token', 'take_token_raw', 'take_token_manual', 'take_token_auto', 'here_doc_contents')}
+    for n, p in prim.items():
+        cx.require(p in F.by_root, 'Parser::%s not found in yash_syntax::parser::core' % n)
+    HDC = prim['here_doc_contents']
+    TAKE = {prim[n] for n in ('take_token_raw', 'take_token_manual', 'take_token_auto')}
+    # the anchor of the whole clause: newline_and_here_doc_contents is a newline consumer (it takes a token and reads here-document lines)
+    nlc = _parser_callees(F, NL)
+    cx.require(TAKE & set(nlc) and HDC in nlc, 'newline_and_here_doc_contents no longer takes a token and reads here-document contents (review)')
+    consumers = {NL: 'newline_and_here_doc_contents', HDC: 'here_doc_contents'}
+
+    # (a) K-CALLERS: list's own part of the call graph (everything it reaches without descending into and_or_list) has no newline consumer
+    cx.fn(LIST)
+    lc = _parser_callees(F, LIST)
+    cx.require(AND in lc, 'Parser::list no longer calls and_or_list: the sub-production at which its own part of the call graph ends is gone (review)')
+    own = _own_closure(F, LIST, AND, TAKE | {prim['peek_token']} | set(consumers))
+    members = [f for f in sorted(own) if f != AND and f not in TAKE and f != prim['peek_token'] and f not in consumers]
+    cx.site('Parser::list reaches, without descending into and_or_list: %s' % sorted(x.split('::')[-1] for x in own))
+    for f in sorted(own):
+        if f in consumers:
+            chain = own[f]
+            b, t = _parser_callees(F, chain[-2])[f]
+            cx.violation(LIST, 'list-consumes-newline:%s' % consumers[f],
+                         'Parser::list reaches %s (%s): the list that command_line parses then swallows the newline that ends the command line, '
+                         'so a line ending in a separator (`read x;`) is not a complete command any more - the shell reads the next line, and takes '
+                         'it from a shared standard input, before running this one' % (consumers[f], ' -> '.join(x.split('::')[-1] for x in chain)),
+                         loc=b.loc(t))
+    n_sw = 0
+    for f in members:
+        for b in F.by_root.get(f, []):
+            # a direct use of the lexer is a token/line consumption that bypasses the parser's token primitives
+            for blk, t in b.calls():
+                nm = (t['f'].get('def') or t['f'].get('decl') or '')
+                if nm.startswith('yash_syntax::parser::lex::') and '::Lexer::<' in nm:
+                    cx.violation(LIST, 'list-uses-lexer:%s' % nm.split('::')[-1], 'Parser::list (%s) calls the lexer directly (%s): what it consumes '
+                                 'beyond the separators of one line is not bounded' % (f.split('::')[-1], nm), loc=b.loc(t))
+            # operator tokens named by value (`token.id == Operator(And)`): the same table as the switch below
+            for blk, j, s in Q.find_aggregates(b, _OPERATOR):
+                n_sw += 1
+                v = s['rv']['variant']
+                cx.site('%s: operator token built for a comparison at %s: %s' % (f.split('::')[-1], b.loc(s), v))
+                if v not in _LIST_SEPARATORS:
+                    cx.violation(LIST, 'list-separator:%s' % v, 'Parser::list compares the current token with the operator %s: only `;` and `&` '
+                                 'separate the and-or lists of one command line; list must stop in front of anything else (in front of the newline '
+                                 'that delimits the command line in particular)' % v, loc=b.loc(s))
+            du = Q.DefUse(b)
+            for blk in sorted(b.live_blocks()):
+                ec = Q.edge_condition(F, b, du, blk)
+                if ec is None or ec[0]['k'] != 'discr' or not str(ec[0].get('ty', '')).endswith(_OPERATOR):
+                    continue
+                n_sw += 1
+                names = Q.variant_names(F, ec[0]['ty']) or []
+                tm = b.term(blk)
+                explicit = sorted({names[v] if 0 <= v < len(names) else str(v) for v, tgt in tm['ts'] if tgt != tm['else']})
+                cx.site('%s: operator tokens told apart at %s: %s' % (f.split('::')[-1], b.loc(tm), explicit))
+                for v in explicit:
+                    if v not in _LIST_SEPARATORS:
+                        cx.violation(LIST, 'list-separator:%s' % v, 'Parser::list gives the operator token %s a treatment of its own: only `;` and `&` '
+                                     'separate the and-or lists of one command line; a list that goes on after %s reads past the end of the '
+                                     'complete command' % (v, v), loc=b.loc(tm))
+    cx.require(n_sw >= 1, 'Parser::list neither switches on the Operator of the peeked token nor compares it with an Operator value (how it recognises separators is not understood: review)')
+
+    # (b) K-PASS: command_line consumes exactly one newline, after the list
+    body = F.inlined(F.main_body(CL))
+    cx.fn(body.fn)
+    nls = Q.find_calls(body, [NL])
+    lists = Q.find_calls(body, [LIST])
+    cx.require(lists, 'command_line no longer calls Parser::list (review)')
+    cx.site('command_line: list at %s, newline_and_here_doc_contents at %s' % (sorted(body.loc(t) for _, t in lists), sorted(body.loc(t) for _, t in nls)))
+    oks = {blk for blk, j, s in Q.find_aggregates(body, 'core::result::Result', 'Ok') if s['lhs']['l'] == 0 and not s['lhs'].get('p')}
+    cx.require(oks, 'command_line: no Ok(..) result found (shape not understood)')
+    if not nls:
+        cx.violation(CL, 'newline-not-consumed', 'command_line does not call newline_and_here_doc_contents: the newline that ends the command line '
+                     'is left in the input and pending here-document bodies are never read', loc=body.loc(lists[0][1]))
+    else:
+        nb = {blk for blk, _ in nls}
+        p = Q.must_pass(body, [s for blk, _ in lists for s in body.succ(blk)], nb, oks)
+        if p is not None:
+            cx.violation(CL, 'newline-not-consumed', 'command_line can return a parsed command without having called newline_and_here_doc_contents: '
+                         'the here-document bodies of the command are not read before it runs', loc=body.loc(body.term(p[-1])), path=Q.render_path(body, p))
+        for blk, t in nls:
+            if not any(l != blk and body.dominates(l, blk) for l, _ in lists):
+                cx.violation(CL, 'newline-before-list', 'command_line consumes a newline that is not preceded by the list of the command line: an empty '
+                             'line is merged with the command line that follows it', loc=body.loc(t))
+            again = sorted(x for s in body.succ(blk) for x in body.reachable(s) if x in nb)
+            if again:
+                cx.violation(CL, 'more-than-one-newline', 'command_line can consume a second newline (newline_and_here_doc_contents is %s): the complete '
+                             'command then extends over the next line, which is read - from a shared standard input: taken away from the command - '
+                             'before the command runs' % ('called in a cycle' if blk in again else 'called again at %s' % body.loc(body.term(again[0]))),
+                             loc=body.loc(t))
+
+    # (c) K-SIBLING: maybe_compound_list differs exactly in that: it loops over list and newlines
+    mb = F.inlined(F.main_body(MCL))
+    cx.fn(mb.fn)
+    mn, ml = Q.find_calls(mb, [NL]), Q.find_calls(mb, [LIST])
+    cx.require(ml, 'maybe_compound_list no longer calls Parser::list (review)')
+    looping = [blk for blk, _ in mn if any(lb in mb.reachable(s) and blk in mb.reachable(lb) for s in mb.succ(blk) for lb, _ in ml)]
+    cx.site('maybe_compound_list: newline_and_here_doc_contents in a cycle with list: %s' % bool(looping))
+    if not looping:
+        cx.violation(MCL, 'compound-list-stops-at-newline', 'maybe_compound_list does not alternate list and newline_and_here_doc_contents in a loop: a '
+                     'compound command whose body spans several lines is cut at the first newline', loc=mb.loc(ml[0][1]))
+
+    # (d) K-CALLERS: who parses a list, who reads here-document lines
+    for b, i, t in F.callers_of(lambda names, t: LIST in names):
+        cx.site('%s calls Parser::list at %s' % (b.root.split('::')[-1], b.loc(t)))
+        if b.root not in (CL, MCL):
+            cx.violation(b.root, 'caller:list', 'Parser::list is called from %s: whether the newlines around that list are left to command_line is not '
+                         'examined by this rule (only command_line and maybe_compound_list are)' % b.root, loc=b.loc(t))
+    for b, i, t in F.callers_of(lambda names, t: HDC in names):
+        cx.site('%s calls here_doc_contents at %s' % (b.root.split('::')[-1], b.loc(t)))
+        if b.root != NL:
+            cx.violation(b.root, 'caller:here_doc_contents', 'here-document lines are read outside newline_and_here_doc_contents (%s): lines are taken from '
+                         'the input at a point that is not the newline ending the line of the redirection' % b.root, loc=b.loc(t))
+
+
+RS.explanation += (' Parser::list reaches no newline consumer except through and_or_list and knows only `;`/`&`; command_line consumes exactly one '
+                   'newline after the list; maybe_compound_list is the looping sibling; here_doc_contents has one caller (R9).')
+
+
+# --- wave 5 (seed C18-s10, the same change as C09-s1 seen from this property): a command that redirects its standard input more than
+# once must give the shell its own standard input back, or the next "script lines" are read from the file of the first redirection
+from rules.C09 import r4 as _c09_undo_in_reverse_order
+from engine import Rule
+RS.rules.append(Rule('C18.R10', 'K-TYPE+K-CALLERS', 'after a command with several redirections of the same descriptor (`read x </a </b`) the '
+                     'descriptor the shell reads its script from is the original one again: the saved copies are restored in reverse '
+                     'order of the redirections (C09.R4)', _c09_undo_in_reverse_order))
+RS.explanation += ' Redirections are undone in reverse order, so the script descriptor is the original one after every command (R10 = C09.R4).'
